@@ -17,9 +17,14 @@ use std::time::Duration;
 /// Generates `dir/client/*` and `dir/server/*` with the bundled generator, in a child process
 /// (the generator prints to stdout).
 pub fn gen_certs(dir: &Path) -> Result<()> {
+    gen_certs_opts(dir, false)
+}
+
+/// the same with the generator's `--no-expiry` choice; the directory may hold an earlier set
+pub fn gen_certs_opts(dir: &Path, no_expiry: bool) -> Result<()> {
     let exe = std::env::current_exe()?;
     let st = std::process::Command::new(exe)
-        .args(["gen-certs", dir.to_str().unwrap()])
+        .args(["gen-certs", dir.to_str().unwrap(), if no_expiry { "no-expiry" } else { "expiring" }])
         .stdout(std::process::Stdio::null())
         .stderr(std::process::Stdio::null())
         .status()?;
@@ -30,14 +35,14 @@ pub fn gen_certs(dir: &Path) -> Result<()> {
 }
 
 /// to be called by the binary's `gen-certs` subcommand
-pub fn gen_certs_here(dir: &Path) -> Result<()> {
+pub fn gen_certs_here(dir: &Path, no_expiry: bool) -> Result<()> {
     use selium_tools::cli::GenCertsArgs;
     use selium_tools::commands::gen_certs::GenCertsRunner;
     use selium_tools::traits::CommandRunner;
     GenCertsRunner::from(GenCertsArgs {
         server_out_path: dir.join("server"),
         client_out_path: dir.join("client"),
-        no_expiry: false,
+        no_expiry,
     })
     .run()
 }
